@@ -90,6 +90,9 @@ def value_labels(v, out=None, depth=0):
     return out
 
 
+_NUMBER_CTOR = {"int": int, "float": float, "Decimal": __import__("decimal").Decimal, "Fraction": __import__("fractions").Fraction}
+
+
 def ambiguity(spec, v, mat):
     """None if no union in `spec` can capture `v` on the way: for the value's own member A_i (the
     first member v conforms to) no *earlier* member's independently built marshaller accepts v and
@@ -116,6 +119,11 @@ def ambiguity(spec, v, mat):
             if kj == "ok" and (kw != "ok" or snapshot(wj) != snapshot(w)):
                 return "marshal-captured"   # an earlier member writes the value differently
             if kw == "ok" and tl.call(lambda: tl.unmarshaller(Aj)(w))[0] == "ok":
+                # a number member reads a text by its own constructor ("call the number constructor with the input"): a text
+                # the constructor rejects is no wire form of that member - a capture the member's contract does not allow
+                ctor = _NUMBER_CTOR.get(ms[j].get("t")) if ms[j]["k"] == "scalar" else None
+                if ctor is not None and type(w) is str and tl.call(ctor, w)[0] == "exc":
+                    return f"spurious-capture:{ms[j]['t']}"
                 return "unmarshal-captured"
         return A(ms[own], v)
     if k in ("newtype", "alias", "stralias", "final", "classvar"):
@@ -234,6 +242,13 @@ def check_value(p, v, col, via: str):
             return
         ku, u = tl.call(ur, m)
     amb = ambiguity(spec, v, mat) if (wide or U.has_kind(spec, "optional")) else None
+    if amb and amb.startswith("spurious-capture"):
+        spurious, amb = amb, None      # no ambiguity in the statement's sense: the strong law applies to this value
+        amb_case = dict(case(), diag=spurious)
+        amb = spurious
+        col.violation("round-trip", amb_case, f"T={mat.root_expr} v={vsrc[:200]} m={m!r:.200}: an earlier {amb.split(':')[1]} member accepts the text wire form of a later "
+                      f"member although {amb.split(':')[1]}(text) rejects it", bucket="spurious-capture|" + amb.split(":")[1])
+        amb = None
     if ku == "exc" and amb and isinstance(u, ValueError):
         c = case()
         hd = history_diag(T, v)
